@@ -109,13 +109,19 @@ Definition take_nrf (t : tr) : tr :=    (* seen += len(result_list); del _next_r
 Definition t_deliver (r : rep) (t : tr) : tr :=
   mkTr (log t) (todo t) (proc t) (mark t) (seen t) (cstat t) (nrf t) (cur t) (dcur t ++ [r]) (base t) (fin t) (past t).
 
+(* SimulatorBackend._stop_or_pause_trial, last step (repo commit 742ed2c): results of this trial
+   processed inside the blocking call are popped from _next_results_to_fetch and counted as seen *)
+Definition drop_window (bk : bkind) (t : tr) : tr :=
+  match bk with Sim => take_nrf t | Generic => t end.
 (* TrialBackend.pause_trial: status := paused; _pause_trial (marker, kill) *)
 Definition t_pause (bk : bkind) (late : nat) (t : tr) : tr :=
-  t_kill bk late (set_mark (match mark t with StopMark | BothMark => BothMark | _ => PauseMark end)
-                           (set_cstat Paused t)).
+  drop_window bk
+    (t_kill bk late (set_mark (match mark t with StopMark | BothMark => BothMark | _ => PauseMark end)
+                              (set_cstat Paused t))).
 (* TrialBackend.stop_trial: _stop_trial (marker, kill); the cached status is not touched *)
 Definition t_stop (bk : bkind) (late : nat) (t : tr) : tr :=
-  t_kill bk late (set_mark (match mark t with PauseMark | BothMark => BothMark | _ => StopMark end) t).
+  drop_window bk
+    (t_kill bk late (set_mark (match mark t with PauseMark | BothMark => BothMark | _ => StopMark end) t)).
 (* TrialBackend.resume_trial after its assertions: _resume_trial (marker removed), _schedule
    (new worker), status := in_progress; ghost: the run that ends is filed under [past] *)
 Definition t_resume (reps : list rep) (t : tr) : tr :=
@@ -338,15 +344,10 @@ Fixpoint live_ids (ts : list tr) (i : nat) : list nat :=
   | [] => []
   | t :: r => match fin t with Live => i :: live_ids r (S i) | _ => live_ids r (S i) end
   end.
-(* Poll polls exactly the trials of running_trials_ids; a resume happens only once the reports of
-   the stop window have been dropped by a poll *)
+(* Poll polls exactly the trials of running_trials_ids *)
 Definition disc_ok (st : state) (e : ev) : bool :=
   match e with
   | Poll ids _ => same_set_nat (live_ids (trials st) 0) ids
-  | Resume i _ => match nth_error (trials st) i with
-                  | Some t => match nrf t with [] => true | _ => false end
-                  | None => true
-                  end
   | e => tuner_ev e
   end.
 Fixpoint run_disc (bk : bkind) (st : state) (evs : list ev) : bool :=
